@@ -103,6 +103,11 @@ HARNESS = dict(
     repo_sources=["dune/common/exceptions.cc", "dune/common/stdstreams.cc"],
 )
 CRASH_IS_VIOLATION = True
+# Batch timeouts are upper bounds against a hung mpirun only: a deadlock of the code under test is detected per case by
+# the harness (alarm, --case-timeout 120 s) and by the collective-count oracle.  They are generous because the ranks of
+# an oversubscribed mpirun busy-wait: at load 95 on 16 cores the quick np=4 batch (45 s on an idle machine) needed more
+# than the former 600 s, which check.py reports as a crash of the op being executed (round four, seeds 2 and 3).
+CORPUS_TIMEOUT = 3600
 RULE = ("translator: Gen/C19.lean regenerated from the tree under test before the proofs are checked; cases: (a) guard: constructor x colour split x 1..6 sections, per rank arm in {new, new-inactive+reactivate, "
         "reactivate} and act in {finalize(true), finalize(), finalize(false), reactivate, throw, leave scope}, end of the "
         "case matched per communicator; for P<=3 every pattern over {ok, finalize(false), throw}^P occurs as a section "
@@ -134,16 +139,16 @@ def batches(tier, seed):
     out = []
     if tier == "quick":
         for np_, sl, rnd in ((1, 4, 1500), (2, 4, 2500), (3, 3, 2500), (4, 3, 2000)):
-            out.append(_b(np_, seed * 100 + np_, sl, rnd, tier, "np%d" % np_, 600))
+            out.append(_b(np_, seed * 100 + np_, sl, rnd, tier, "np%d" % np_, 5400))
     else:
         for np_, sl, rnd in ((1, 5, 20000), (2, 5, 30000), (3, 5, 30000), (4, 4, 30000), (5, 3, 3000), (6, 3, 2500),
                              (8, 3, 1500)):
-            out.append(_b(np_, seed * 100 + np_, sl, rnd, tier, "np%d" % np_, 3000, wrapenum=1 if np_ <= 4 else 0))
+            out.append(_b(np_, seed * 100 + np_, sl, rnd, tier, "np%d" % np_, 21600, wrapenum=1 if np_ <= 4 else 0))
         for k, np_ in enumerate((2, 3, 4)):
-            out.append(_b(np_, seed * 7919 + 31 + k, 1, 30000, tier, "np%d_r" % np_, 3000))
+            out.append(_b(np_, seed * 7919 + 31 + k, 1, 30000, tier, "np%d_r" % np_, 21600))
     return out
 
 
 def search_batches(seed):
-    return [_b(np_, seed * 104729 + 17 + np_, 4 if np_ <= 2 else 3, 20000, "quick", "search", 1500)
+    return [_b(np_, seed * 104729 + 17 + np_, 4 if np_ <= 2 else 3, 20000, "quick", "search", 7200)
             for np_ in (2, 3, 1, 4)]
